@@ -138,6 +138,9 @@ def gantt_check(program, built, solver, prims, leaves, job):
                             bad("buffer-line-missing", leaf, mode, buffer=bn)
                             continue
                         xs, ys = list(l.get_xdata()), list(l.get_ydata())
+                        if any(v is None for v in xs + ys):
+                            bad("buffer-steps", leaf, mode, got="a breakpoint of the curve is None", want="the reported step function")
+                            continue
                         segs = []
                         k = 0
                         while k + 1 < len(xs):
@@ -180,9 +183,14 @@ def jobs(tier):
         ("three-resources", [fixed("a", 1), fixed("b", 2), fixed("c", 1, optional=True), worker("w"), worker("v"), cumul("k", 2),
                              req("a", "w"), req("a", "k"), req("b", "k"), req("b", "v"), req("c", "v")], 3),
         ("indicators", [fixed("a", 1), worker("w"), req("a", "w"), new("IndicatorResourceUtilization", "i", resource=R("w"))], 3),
+        # a long time line: the marker of a zero-length item stays centred on its instant
+        ("long-horizon+zero", [zero("z"), fixed("a", 2), worker("w"), req("z", "w"), req("a", "w")], 12),
     ]
     for lab, decls, H in extra:
         out.append({"program": prog(H, decls), "families": FAM, "family": lab, "directions": "S", "post": "gantt"})
+        if lab == "buffers":
+            # ... without a horizon given by the user (the chart ends at the reported horizon)
+            out.append({"program": prog(None, decls, H=3), "families": FAM, "family": lab + "+free-horizon", "directions": "S", "post": "gantt"})
         if lab.startswith("buffers"):
             # ... and with calendar times (another branch of the renderer places the time labels)
             out.append({"program": prog(H, decls, **cals[1 if lab == "buffers" else -1]), "families": FAM, "family": lab + "+calendar", "directions": "S", "post": "gantt"})
